@@ -4,6 +4,8 @@ CONSTANTS
   MCFields = {"time_begin"}
   MCValues = {"a"}
   MCSub = ""
+  WithReplace = FALSE
+  DEV_CachedSubParams = FALSE
   MaxSets = 0
   WMax = 8
   TMax = 8
